@@ -257,7 +257,22 @@ def scenarios(seed, count):
             else:
                 ops.append(rng.choice(SIMPLE))
         out.append(dict(init=init, ops=ops))
-    return [dict(init=tj(s['init']), ops=tj(s['ops'])) for s in out]
+    res = [dict(init=tj(s['init']), ops=tj(s['ops'])) for s in out]
+    # every fourth history over two large integers instead of the atoms a, b (equal numbers are distinct Python objects)
+    return [_with_numbers(s) if i % 4 == 1 else s for i, s in enumerate(res)]
+
+
+def _with_numbers(x):
+    if isinstance(x, dict):
+        return {k: _with_numbers(v) for k, v in x.items()}
+    if isinstance(x, (list, tuple)):
+        x = list(x)
+        if x == ['atom', 'a']:
+            return ['int', 70000]
+        if x == ['atom', 'b']:
+            return ['int', 70001]
+        return [_with_numbers(i) for i in x]
+    return x
 
 
 def main():
@@ -280,7 +295,7 @@ def main():
         if not ok and len(fails) < 20:
             fails.append(dict(scenario=sc, detail=detail))
     print(json.dumps(dict(evaluations=n, distinct_nontrivial=len(nontriv), failures=fails, failure_count=len(fails), samples=samples,
-                          rule='predicate e/2 over {a,b}: systematic part = 5 databases x 7 patterns (incl. e(X,X), e(X,Y)) x {retractall, retract, '
+                          rule='predicate e/2 over {a,b} (every fourth history over {70000, 70001} built as fresh int objects): systematic part = 5 databases x 7 patterns (incl. e(X,X), e(X,Y)) x {retractall, retract, '
                                'retract / plain enumeration suspended at the first answer and resumed after each of 26 single operations}, shuffled by seed; random part = histories of 1-3 operations; '
                                'answers and database dump after every step vs the reference interpreter; non-trivial = non-empty database')))
 
